@@ -16,7 +16,7 @@ pub fn meta() -> Meta {
         rule: "exhaustive over all 65536 codes: u16::from(TYPE::from(c)) == c, TYPE::from(c) is the named variant for the 41 IANA numbers of an independent table (NULL = 10 included) and \
 Unknown(c) otherwise; QTYPE::try_from(c) is Ok and round-trips for supported codes and 251..255 and Err otherwise; CLASS for {1,2,3,4,254}; QCLASS additionally 255; the same through Packet::parse of a one-question message for all 65536 values of the class field (QU bit = top bit, class = the other 15) and of the type field. Matching matrix: for \
 every supported type code (and several unknown ones) a record obtained both by construction and by parsing a reference-encoded message is matched against every question type \
-{TYPE(t') for all supported t', ANY, MAILB}: expected ANY or t'==t or MAILB with t in {MB,MG,MR}; all class x qclass pairs, on the built record, the parsed record and the into_owned() copy of each; rdata.type_code() == TYPE::from(wire code) including NULL, unknown and empty RDATA. \
+{TYPE(t') for all supported t', ANY, MAILB}: expected ANY or t'==t or MAILB with t in {MB,MG,MR}; all class x qclass pairs, on the built record, the parsed record and the into_owned() copy of each; rdata.type_code() == TYPE::from(wire code) including NULL, unknown and empty RDATA, and for RData::NULL(code, opaque data) built by hand for all 65536 codes (matched against the same questions for the 48 record codes). \
 non-trivial = every case; distinct = hash of the case",
         assumptions: &["AXFR/IXFR/MAILA matching is outside the property's quantifier"],
         exhaustive: true,
@@ -91,9 +91,17 @@ pub fn run(ctx: &mut Ctx) {
                 let q = QTYPE::try_from(c).ok().map(|q| u16::from(q));
                 let cl = CLASS::try_from(c).ok().map(|x| x as u16);
                 let qc = QCLASS::try_from(c).ok().map(|x| u16::from(x));
+                let opaque = RData::NULL(c, simple_dns::rdata::NULL::new(&[]).unwrap()).type_code();
+                if opaque != TYPE::from(c) {
+                    panic!("VERIF-ORACLE type_code of RData::NULL({}, ..) is {:?}", c, opaque);
+                }
                 (t, back, q, cl, qc)
             });
             let (t, back, q, cl, qc) = match r {
+                Err(pn) if pn.message.contains("VERIF-ORACLE") => {
+                    ctx.violation("iana", "type-code-of-opaque-record", pn.message.replace("VERIF-ORACLE ", ""), case());
+                    continue;
+                }
                 Ok(x) => x,
                 Err(pn) => {
                     ctx.panic_violation("code conversions", &pn, case());
@@ -205,7 +213,11 @@ pub fn run(ctx: &mut Ctx) {
                     // the owned copies must report the same type and match the same questions
                     let built_owned = built.clone().into_owned();
                     let parsed_owned = parsed.clone().into_owned();
-                    for (route, rr) in [("built", &built), ("parsed", &parsed), ("built-owned", &built_owned), ("parsed-owned", &parsed_owned)] {
+                    // a record an application puts together from a type code and opaque data (the NULL variant is the public way to
+                    // do that, for any code): its type is the one the code denotes
+                    let opaque = simple_dns::ResourceRecord::new(built.name.clone(), built.class, 1, RData::NULL(*code, simple_dns::rdata::NULL::new(&[1, 2, 3]).map_err(|e| format!("{:?}", e))?));
+                    let opaque_owned = opaque.clone().into_owned();
+                    for (route, rr) in [("built", &built), ("parsed", &parsed), ("built-owned", &built_owned), ("parsed-owned", &parsed_owned), ("opaque-built", &opaque), ("opaque-built-owned", &opaque_owned)] {
                         let tc = rr.rdata.type_code();
                         if tc != TYPE::from(*code) {
                             probs.push(format!("type-code-of-record:{}:{}", route, match rr.rdata { RData::NULL(..) => "NULL-variant", RData::Empty(_) => "Empty-variant", _ => "typed" }));
@@ -231,7 +243,7 @@ pub fn run(ctx: &mut Ctx) {
                     Err(pn) => ctx.panic_violation("matching", &pn, case()),
                     Ok(Err(e)) => ctx.notes.push(format!("match case skipped: {}", e)),
                     Ok(Ok(probs)) => {
-                        ctx.add("match_evaluations", 4 * (qtypes.len() as u64 + 6));
+                        ctx.add("match_evaluations", 6 * (qtypes.len() as u64 + 6));
                         let mut seen = std::collections::HashSet::new();
                         for pr in probs {
                             if seen.insert(pr.clone()) {
